@@ -169,7 +169,7 @@ def _one_param_op(ctx: Ctx, c: ClassInfo, init: FuncInfo, fwd: FuncInfo, tag: st
                         continue
                     got = s4.norm_shape(rv.shape)
                     cond = ("; under " + " and ".join(s4.assumed)) if s4.assumed else ""
-                    if got == want:
+                    if got == want or (len(got) == len(want) and all(s4.decide(a - b, "==") is True for a, b in zip(got, want))):
                         out.append(ok("R4a", c.qualname, inst, f"{fmt_shape(got)}{cond}", fwd.loc))
                         out.append(_layout_ob(c, inst, rv, fwd.loc))
                     else:
@@ -200,7 +200,12 @@ def _layout_ob(c: ClassInfo, inst: str, rv: TensorV, loc: str) -> Ob:
         return unres("R4l", c.qualname, linst, "element order of the result not derived", loc)
     bad = None
     unknown = False
+    from ..layout import is_misaligned
+
     for k, lay in enumerate(rv.lay):
+        if is_misaligned(lay):
+            bad = f"axis {k} combines operands element-wise across different factorisations of the axis ({lay[0][0][1:-1]}): entry j pairs (j div n, j mod n) of one with (j div m, j mod m) of the other"  # type: ignore[index]
+            break
         if lay is None:
             d = rv.shape[k]
             if len(d.t) == 1 and sum(e for m in d.t for _, e in m) > 1:  # a product of sizes: its order matters
@@ -334,6 +339,8 @@ def _candidates(ctx: Ctx, c: ClassInfo, pname: str, ann: str, st_factory: Any) -
     if a == "bool":
         return [(f"{pname}=True", lambda st: BoolV(True)), (f"{pname}=False", lambda st: BoolV(False))]
     if a == "int":
+        if pname == "degree":
+            return [("", lambda st, n=pname: IntV(Dim.sym("nn:" + n)))]  # a degree may be 0: constant polynomials
         return [("", lambda st, n=pname: IntV(Dim.sym(n)))]
     if "TorchInputLayer" in a or "TorchLayer" in a:
         return [("sub=" + k.name, ("layer", k)) for k in _sub_layer_classes(ctx)]
@@ -460,6 +467,7 @@ def _one_layer_method(ctx: Ctx, c: ClassInfo, obj: ObjV, st0: State, meth: str, 
     inst = f"{meth}[{tag}]" if tag else meth
     it.pairings = []  # type: ignore[attr-defined]
     it.selected = set()  # type: ignore[attr-defined]
+    it.random_sources = []  # type: ignore[attr-defined]
     if kind == "inner":
         x_in = fresh_tensor((f_d, ar_d, B, ki_d))
         if x_in.lay is not None and ar_d.as_int() is not None and ar_d.as_int() > 1:
@@ -532,6 +540,30 @@ def _one_layer_method(ctx: Ctx, c: ClassInfo, obj: ObjV, st0: State, meth: str, 
         return [unres(rule, c.qualname, inst, "path limit", fi.loc)]
     except RecursionError:
         return [unres(rule, c.qualname, inst, "recursion limit", fi.loc)]
+    # R4s-rand: an input layer draws one independent random number per returned sample entry
+    if kind == "sample_input" and any(o.status == "ok" and o.nontrivial for o in out):
+        from ..dims import Dim as _D
+
+        need = State().norm(_D.const(1))
+        for d in (f_d, ko_d, N):
+            need = need * d
+        srcs = it.random_sources  # type: ignore[attr-defined]
+        rinst = inst.replace(meth, meth + "-randomness", 1)
+        if not srcs:
+            out.append(unres("R4s", c.qualname, rinst, "no random source recognised in sample()", fi.loc))
+        else:
+            def numel(shape: Any) -> Any:
+                r = _D.const(1)
+                for d in shape:
+                    r = r * d
+                return r
+
+            best = [(op, shp) for op, shp, _ in srcs if (numel(shp) - need).as_int() == 0 or numel(shp).divide(need) is not None]
+            if best:
+                out.append(ok("R4s", c.qualname, rinst, f"{best[0][0]} draws {fmt_shape(best[0][1])}: one independent draw per (fold, unit, sample)", fi.loc))
+            else:
+                op, shp, nd = srcs[-1]
+                out.append(viol("R4s", c.qualname, rinst, f"the only randomness of sample() is {op} of shape {fmt_shape(shp)} for a result of shape (F, Ko, N): the same draws are broadcast over folds / units, so the variables of one sample (which sit in different folds of a folded input layer) share their noise and the joint distribution is wrong while every marginal looks right", f"{fi.module.relpath}:{getattr(nd, 'lineno', fi.node.lineno)}"))
     # R4u: every input of an inner layer is consumed (forward and sample)
     n_in = ar_d.as_int()
     if kind in ("inner", "sample_inner") and n_in is not None and n_in >= 2 and any(o.status == "ok" and o.nontrivial for o in out):
